@@ -27,11 +27,11 @@ def ideal (ds : List Decl) (N : List Notify) : List (Decl × Stored) :=
 def finalStored (d : Decl) (N : List Notify) (init : Stored) : Stored :=
   N.foldl (fun st n => storedAfter d n.body st) init
 
-theorem varAfter_stored (names : List Str) (b : Body) (tick : Nat) (v : Var)
-    (hx : names.contains v.decl.name = true) :
+theorem varAfter_stored (names : List Str) (hn : ∀ n ∈ names, braceFree n = true) (b : Body) (hb : bodyWF b = true)
+    (tick : Nat) (v : Var) (hx : names.contains v.decl.name = true) :
     (varAfter (assigns names b) tick v).decl = v.decl
     ∧ (varAfter (assigns names b) tick v).st.stored = storedAfter v.decl b v.st.stored := by
-  simp only [varAfter, storedAfter, carried_assigns names b v.decl.name hx]
+  simp only [varAfter, storedAfter, carried_assigns names hn b hb v.decl.name hx]
   cases get? (assigns names b) v.decl.name with
   | none => exact ⟨rfl, rfl⟩
   | some text =>
@@ -54,7 +54,7 @@ theorem valsOf_notifyChanged (s : Svc) (hs : declsWF (declsOf s)) (b : Body) (hb
   have hx : s.names.contains v.decl.name = true := by
     simp only [Svc.names, List.contains_eq_mem, List.mem_map, decide_eq_true_eq]
     exact ⟨v, hv, rfl⟩
-  obtain ⟨h1, h2⟩ := varAfter_stored s.names b tick v hx
+  obtain ⟨h1, h2⟩ := varAfter_stored s.names (names_braceFree s hs) b hb tick v hx
   simp [Function.comp, h1, h2]
 
 theorem ideal_snoc (ds : List Decl) (N : List Notify) (n : Notify) :
